@@ -187,26 +187,42 @@ Definition binding_ok (b : binding) : Prop := b_prefix b <> Some "" /\ b_isep b 
    shellQuote: false under it: cwltool would still quote the items (fresh item bindings), StreamFlow would not. *)
 Definition input_ok (shell : bool) (i : input) : Prop :=
   name_ok (i_name i) /\
-  match i_bind i with
-  | None => True
-  | Some b => binding_ok b /\
-              (i_arr i = true -> b_vf b = VfNone -> b_isep b = None -> quoted shell b = true)
+  match i_item i with
+  | None =>
+      match i_bind i with
+      | None => True
+      | Some b => binding_ok b /\
+                  (i_arr i = true -> b_vf b = VfNone -> b_isep b = None -> quoted shell b = true)
+      end
+  | Some ib =>
+      (* a binding on the items: only under a binding on the array itself (without one cwltool orders the items by
+         their INDEX first: item_only_order_refuted), which leaves shellQuote unwritten (else StreamFlow quotes the items
+         twice: item_twice_refuted) and whose prefix, left unquoted by StreamFlow, is shell-safe *)
+      binding_ok ib /\ b_vf ib = VfNone /\
+      match i_bind i with
+      | None => False
+      | Some ob => binding_ok ob /\ b_quote ob = None /\ b_isep ob = None /\ b_vf ob = VfNone /\
+                   match b_prefix ob with None => True | Some p => quote p = p end
+      end
   end.
 Definition tool_ok (t : tool) : Prop :=
   Forall binding_ok (t_args t) /\ Forall (input_ok (t_shell t)) (t_inputs t).
 (* the input object respects the declared types as far as arrays go *)
+Definition item_ok (it : sval) : Prop := match it with VNull | VBool _ => False | _ => True end.
 Definition input_typed (j : job) (i : input) : Prop :=
-  i_arr i = false -> forall l, lookup j (i_name i) <> Arr l.
+  (i_arr i = false -> forall l, lookup j (i_name i) <> Arr l) /\
+  (i_item i <> None -> forall l, lookup j (i_name i) = Arr l -> Forall item_ok l).
 Definition job_typed (t : tool) (j : job) : Prop := Forall (input_typed j) (t_inputs t).
 
 Definition key_of (k : skey) : Z * option string :=
-  match k with KArg p _ => (p, None) | KIn p n => (p, Some n) end.
+  match k with KArg p _ => (p, None) | KIn p n => (p, Some n) | KItem _ p n => (p, Some n) end.
 Definition earlier (a b : skey) : Prop :=
   match a, b with
   | KArg _ i, KArg _ j => (i < j)%N
   | KArg _ _, KIn _ n => name_ok n
   | KIn _ _, KArg _ _ => False
   | KIn _ _, KIn _ _ => True
+  | _, _ => False          (* item keys are not ordered like this: they are outside tool_ok *)
   end.
 
 Definition Rel (e : skey * list piece) (c : ctoken) : Prop :=
@@ -216,12 +232,12 @@ Lemma lt_agree x1 x2 y1 y2 :
   Rel x1 x2 -> Rel y1 y2 -> earlier (fst x1) (fst y1) -> agree spec_lt fst sf_lt tok_key x1 x2 y1 y2.
 Proof.
   intros [Hx _] [Hy _] He. unfold agree. rewrite Hx, Hy. clear Hx Hy.
-  destruct x1 as [[pa i|pa n] ?], y1 as [[pb j|pb m] ?]; cbn [fst key_of earlier] in *;
+  destruct x1 as [[pa i|pa n|na pa n] ?], y1 as [[pb j|pb m|nb pb m] ?]; cbn [fst key_of earlier] in *;
+    try (destruct He; fail);
     unfold spec_lt, sf_lt; cbn [key_pos fst snd];
     destruct (Z.ltb pb pa); try reflexivity; destruct (Z.ltb pa pb); try reflexivity.
   - apply N.ltb_ge. lia.
   - apply He.
-  - destruct He.
 Qed.
 
 Lemma render_pieces q l : map render (map (fun s => (s, q)) l) = map (q_str q) l.
@@ -267,21 +283,83 @@ Proof.
   left. apply fresh_scalar_vf. right. reflexivity.
 Qed.
 
+Lemma gen_scalar_nonempty b it : item_ok it -> spec_generate b (Sc it) <> [].
+Proof.
+  unfold spec_generate. destruct it as [|?|?|?|? ? ? ?]; cbn; try tauto; intros _;
+    destruct (b_sep b), (b_prefix b); discriminate.
+Qed.
+
+Lemma sf_item_tokens_cons t ib x it r :
+  sf_item_tokens t ib x (it :: r)
+  = (match sf_bind (t_shell t, opt_default true (b_quote ib)) ib (Sc it) with
+     | Some v => [(Some x, b_pos ib, v)] | None => [] end) ++ sf_item_tokens t ib x r.
+Proof. reflexivity. Qed.
+
+(* the items of an array with a binding on the items: value for value what the reference generates, quoted alike *)
+Lemma item_values t ib x : binding_ok ib -> forall l, Forall item_ok l ->
+  map repr (flat_map (fun c : ctoken => snd c) (sf_item_tokens t ib x l))
+  = map render (flat_map (spec_item_pieces t ib) l).
+Proof.
+  intros [Hp Hs]. induction l as [|it r IH]; intros Hl; [reflexivity|]. inversion Hl; subst.
+  rewrite sf_item_tokens_cons, flat_map_app, map_app.
+  change (flat_map (spec_item_pieces t ib) (it :: r)) with (spec_item_pieces t ib it ++ flat_map (spec_item_pieces t ib) r).
+  rewrite map_app. f_equal; [|apply IH; assumption].
+  pose proof (bind_equiv (t_shell t, opt_default true (b_quote ib)) ib (Sc it) Hp Hs) as H.
+  destruct (sf_bind _ ib (Sc it)) as [v|].
+  - destruct H as [_ Hm]. cbn [flat_map snd app]. rewrite app_nil_r, Hm. unfold spec_item_pieces.
+    rewrite render_pieces. reflexivity.
+  - exfalso. eapply gen_scalar_nonempty; eauto.
+Qed.
+
+Lemma item_pieces_nonempty t ib it r : item_ok it -> flat_map (spec_item_pieces t ib) (it :: r) <> [].
+Proof.
+  intros H. cbn [flat_map]. unfold spec_item_pieces at 1. pose proof (gen_scalar_nonempty ib it H).
+  destruct (spec_generate ib (Sc it)); [congruence|discriminate].
+Qed.
+
+Lemma composite_bind t ob V :
+  b_quote ob = None -> b_isep ob = None -> V <> [] ->
+  sf_bind (sf_composite_flags t ob) ob (Arr V)
+  = Some (match b_prefix ob with Some p => VStr p :: V | None => V end).
+Proof.
+  intros Hq Hs HV. unfold sf_bind, sf_composite_flags, sf_value_for_command. rewrite Hq, Hs.
+  destruct V as [|v0 V0]; [congruence|]. destruct (b_prefix ob); reflexivity.
+Qed.
+
 Lemma inputs_rel t j : forall l, Forall (input_ok (t_shell t)) l -> Forall (input_typed j) l ->
-  Forall2 Rel (flat_map (spec_input t j) l) (flat_map (sf_input_token t j) l).
+  Forall2 Rel (flat_map (spec_input' t j) l) (flat_map (sf_input_token' t j) l).
 Proof.
   induction l as [|i r IH]; intros Hok Hty; [constructor|].
-  inversion Hok as [|? ? [_ Hi] Hr]; subst. inversion Hty as [|? ? Ht Htr]; subst.
+  inversion Hok as [|? ? [_ Hi] Hr]; subst. inversion Hty as [|? ? [Ht Hit] Htr]; subst.
   cbn [flat_map]. apply Forall2_app; [|apply IH; assumption].
-  unfold spec_input, sf_input_token. destruct (i_bind i) as [b|]; [|constructor].
-  destruct Hi as [Hb Hq]. cbn zeta. destruct (is_null (lookup j (i_name i))); [constructor|].
-  apply entry_equiv; [assumption|reflexivity|reflexivity|].
-  destruct (items_fresh b (eval_vf b j (lookup j (i_name i)))) eqn:E; [right|left; reflexivity].
-  unfold items_fresh, eval_vf in E. destruct (b_vf b) eqn:V; try discriminate.
-  destruct (b_isep b) eqn:S; try discriminate.
-  destruct (lookup j (i_name i)) as [?|l] eqn:L; try discriminate.
-  unfold flags_q, sf_input_flags, quoted in *. cbn [fst snd].
-  destruct (i_arr i) eqn:A; [apply Hq; reflexivity|]. exfalso. apply (Ht A l). exact L.
+  unfold spec_input', sf_input_token'. destruct (i_item i) as [ib|] eqn:EI.
+  - (* binding on the items, under a binding on the array *)
+    destruct Hi as (Hib & Hvf & Hi). unfold spec_item_input, sf_item_input.
+    destruct (i_bind i) as [ob|]; [|destruct Hi]. destruct Hi as ((Hop & Hos) & Hq & Hs & Hv & Hsafe).
+    destruct (lookup j (i_name i)) as [?|l] eqn:L; [constructor|].
+    assert (Hl : Forall item_ok l) by (apply Hit; [discriminate|reflexivity]).
+    destruct l as [|it r0]; [cbn; unfold sf_bind; cbn; constructor|].
+    pose proof (item_values t ib (i_name i) Hib _ Hl) as HV.
+    pose proof (item_pieces_nonempty t ib it r0 ltac:(inversion Hl; assumption)) as HN.
+    rewrite composite_bind; [|assumption|assumption|].
+    2:{ intros E. apply (f_equal (map repr)) in E. pose proof (eq_trans (eq_sym HV) E) as E2. cbn [map] in E2.
+        destruct (flat_map (spec_item_pieces t ib) (it :: r0)); [congruence|discriminate]. }
+    unfold spec_entry, spec_pre.
+    destruct (b_prefix ob) as [p|] eqn:EP.
+    + rewrite (nonempty_s_true p) by (intros ->; apply Hop; reflexivity). cbn [map app].
+      constructor; [|constructor]. split; [reflexivity|]. cbn [snd map]. unfold render at 1. cbn [fst snd].
+      rewrite Hsafe. f_equal; [destruct (quoted (t_shell t) ob); reflexivity|exact (eq_sym HV)].
+    + cbn [map app]. destruct (flat_map (spec_item_pieces t ib) (it :: r0)) as [|p0 P0] eqn:EPP; [congruence|].
+      constructor; [|constructor]. split; [reflexivity|]. cbn [snd]. symmetry. exact HV.
+  - unfold spec_input, sf_input_token. destruct (i_bind i) as [b|]; [|constructor].
+    destruct Hi as [Hb Hq]. cbn zeta. destruct (is_null (lookup j (i_name i))); [constructor|].
+    apply entry_equiv; [assumption|reflexivity|reflexivity|].
+    destruct (items_fresh b (eval_vf b j (lookup j (i_name i)))) eqn:E; [right|left; reflexivity].
+    unfold items_fresh, eval_vf in E. destruct (b_vf b) eqn:V; try discriminate.
+    destruct (b_isep b) eqn:S; try discriminate.
+    destruct (lookup j (i_name i)) as [?|l] eqn:L; try discriminate.
+    unfold flags_q, sf_input_flags, quoted in *. cbn [fst snd].
+    destruct (i_arr i) eqn:A; [apply Hq; reflexivity|]. exfalso. apply (Ht eq_refl l). reflexivity.
 Qed.
 
 Definition Ekey (x y : skey * list piece) : Prop := earlier (fst x) (fst y).
@@ -304,13 +382,17 @@ Proof.
     unfold Ekey. rewrite Hx, E. cbn. lia.
 Qed.
 
-Lemma inputs_keys t j : forall l e, Forall (input_ok (t_shell t)) l -> In e (flat_map (spec_input t j) l) ->
+Lemma inputs_keys t j : forall l e, Forall (input_ok (t_shell t)) l -> In e (flat_map (spec_input' t j) l) ->
   exists p n, fst e = KIn p n /\ name_ok n.
 Proof.
-  induction l as [|i r IH]; intros e Hok H; [destruct H|]. inversion Hok as [|? ? [Hn _] Hr]; subst.
+  induction l as [|i r IH]; intros e Hok H; [destruct H|]. inversion Hok as [|? ? [Hn Hi] Hr]; subst.
   cbn [flat_map] in H. apply in_app_or in H. destruct H as [H|H]; [|apply IH; assumption].
-  unfold spec_input in H. destruct (i_bind i) as [b|]; [|destruct H]. cbn zeta in H.
-  destruct (is_null _); [destruct H|]. apply spec_entry_in in H. eauto.
+  unfold spec_input' in H. destruct (i_item i) as [ib|].
+  - unfold spec_item_input in H. destruct (lookup j (i_name i)) as [?|l0]; [destruct H|].
+    destruct (i_bind i) as [ob|]; [|destruct Hi as (_ & _ & [])]. destruct l0; [destruct H|].
+    apply spec_entry_in in H. eauto.
+  - unfold spec_input in H. destruct (i_bind i) as [b|]; [|destruct H]. cbn zeta in H.
+    destruct (is_null _); [destruct H|]. apply spec_entry_in in H. eauto.
 Qed.
 
 Lemma kin_ord l : (forall e, In e l -> exists p n, fst e = KIn p n /\ name_ok n) -> ordpairs Ekey l.
@@ -360,7 +442,8 @@ Proof.
 Qed.
 
 Definition all_bindings (t : tool) : list binding :=
-  t_args t ++ flat_map (fun i => match i_bind i with Some b => [b] | None => [] end) (t_inputs t).
+  t_args t ++ flat_map (fun i => (match i_bind i with Some b => [b] | None => [] end)
+                                 ++ (match i_item i with Some b => [b] | None => [] end)) (t_inputs t).
 (* every binding is quoted: no ShellCommandRequirement, or no shellQuote: false *)
 Definition quotes_all (t : tool) : Prop := forall b, In b (all_bindings t) -> quoted (t_shell t) b = true.
 
@@ -374,6 +457,25 @@ Proof.
   cbn [snd]. induction (s :: r); [reflexivity|]. simpl. assumption.
 Qed.
 
+Lemma flag_true_all (l : list string) : forallb snd (map (fun s => (s, true)) l) = true.
+Proof. induction l; [reflexivity|]. simpl. assumption. Qed.
+
+Lemma item_pieces_quoted t ib l : quoted (t_shell t) ib = true ->
+  forallb snd (flat_map (spec_item_pieces t ib) l) = true.
+Proof.
+  intros Hq. induction l as [|it r IH]; [reflexivity|]. cbn [flat_map]. rewrite forallb_app.
+  apply andb_true_iff. split; [|exact IH]. unfold spec_item_pieces. rewrite Hq. apply flag_true_all.
+Qed.
+
+Lemma item_entries_quoted t ib x e : quoted (t_shell t) ib = true ->
+  forall l n, In e (spec_item_entries t ib x n l) -> forallb snd (snd e) = true.
+Proof.
+  intros Hq. induction l as [|it r IH]; intros n H; [destruct H|]. cbn [spec_item_entries] in H.
+  apply in_app_or in H. destruct H as [H|H]; [|eapply IH; exact H].
+  unfold spec_entry in H. destruct (spec_item_pieces t ib it) eqn:E; [destruct H|]. destruct H as [<-|[]].
+  cbn [snd]. rewrite <- E. unfold spec_item_pieces. rewrite Hq. apply flag_true_all.
+Qed.
+
 Lemma bindings_quoted t j : quotes_all t -> forall e, In e (spec_bindings t j) -> forallb snd (snd e) = true.
 Proof.
   intros Hq e H. unfold spec_bindings in H. apply in_app_or in H. destruct H as [H|H].
@@ -383,10 +485,23 @@ Proof.
       destruct He as [He|He]; [eapply entry_quoted; [|exact He]; apply Hl; left; reflexivity|].
       eapply IH; [|exact He]. intros; apply Hl; right; assumption. }
     eapply G; [|exact H]. intros b Hb. apply Hq. unfold all_bindings. apply in_or_app. left. exact Hb.
-  - apply in_flat_map in H. destruct H as (i & Hi & He). unfold spec_input in He.
-    destruct (i_bind i) as [b|] eqn:Eb; [|destruct He]. cbn zeta in He. destruct (is_null _); [destruct He|].
-    eapply entry_quoted; [|exact He]. apply Hq. unfold all_bindings. apply in_or_app. right.
-    apply in_flat_map. exists i. split; [exact Hi|]. rewrite Eb. left. reflexivity.
+  - apply in_flat_map in H. destruct H as (i & Hi & He).
+    assert (Hall : forall b, In b ((match i_bind i with Some b => [b] | None => [] end)
+                                   ++ (match i_item i with Some b => [b] | None => [] end)) ->
+                   quoted (t_shell t) b = true).
+    { intros b Hb. apply Hq. unfold all_bindings. apply in_or_app. right. apply in_flat_map. exists i. split; assumption. }
+    unfold spec_input' in He. destruct (i_item i) as [ib|] eqn:EI.
+    + assert (Hqi : quoted (t_shell t) ib = true) by (apply Hall; apply in_or_app; right; left; reflexivity).
+      unfold spec_item_input in He. destruct (lookup j (i_name i)) as [?|l]; [destruct He|].
+      destruct (i_bind i) as [ob|] eqn:Eb.
+      * destruct l as [|it r]; [destruct He|]. unfold spec_entry in He.
+        destruct (map _ (spec_pre ob) ++ _) eqn:E; [destruct He|]. destruct He as [<-|[]]. cbn [snd]. rewrite <- E.
+        rewrite forallb_app. apply andb_true_iff. split; [|apply item_pieces_quoted; exact Hqi].
+        rewrite (Hall ob) by (apply in_or_app; left; left; reflexivity). apply flag_true_all.
+      * eapply item_entries_quoted; eauto.
+    + unfold spec_input in He.
+      destruct (i_bind i) as [b|] eqn:Eb; [|destruct He]. cbn zeta in He. destruct (is_null _); [destruct He|].
+      eapply entry_quoted; [|exact He]. apply Hall. left. reflexivity.
 Qed.
 
 Lemma pieces_quoted t j : quotes_all t -> forallb snd (spec_pieces t j) = true.
